@@ -167,7 +167,7 @@ def check(ctx):
            'the refill interval is one hour (%s s)' % interval,
            construct='_INTERVAL', file=mod.rel)
     init = None
-    for f in mod.all_functions():
+    for f in mod.live_functions():
         for sub in K.walk_no_nested(f.node):
             if isinstance(sub, ast.Dict) and any(
                     isinstance(k, ast.Constant) and k.value == 'rate'
@@ -250,7 +250,7 @@ def check(ctx):
     ctx.ob('C20.4', func, dnode, unknown is None,
            'an unknown policy issues no delete request',
            construct='unknown policy')
-    sw = [f for f in mod.all_functions() if f.name == '_scheduled_watch']
+    sw = [f for f in mod.live_functions() if f.name == '_scheduled_watch']
     ctx.require(sw, '_scheduled_watch')
     src = ast.unparse(sw[0].node)
     ctx.ob('C20.4', sw[0], None,
@@ -306,7 +306,7 @@ def check(ctx):
            all(specific.values()),
            'each handled failure class suspends the monitor: %s' %
            specific, construct='failure handlers suspend')
-    watch = [f for f in mod.all_functions()
+    watch = [f for f in mod.live_functions()
              if f.name == '_appmonitors_watch']
     ctx.require(watch, '_appmonitors_watch')
     wf = watch[0]
@@ -340,7 +340,7 @@ def check(ctx):
             ctx.ob('C20.6', wf, loop, tab == want,
                    'monitors watched: exactly listed - known (found %s)' %
                    K.show_table(tab), construct='monitors added')
-    dw = [f for f in mod.all_functions() if f.name == '_monitor_data_watch']
+    dw = [f for f in mod.live_functions() if f.name == '_monitor_data_watch']
     ctx.require(dw, '_monitor_data_watch')
     dsrc = ast.unparse(dw[0].node)
     ctx.ob('C20.6', dw[0], None,
